@@ -283,6 +283,8 @@ fn check_run_fresh(t: &mut Tape, ctx: &Ctx) -> Outcome {
     let lines = listing(&h.term);
     let nums = numbers_of(&h.term);
     let cmd = if !nums.is_empty() && t.chance(1, 3) { format!("RUN {}", t.pick(&nums)) } else { "RUN".to_string() };
+    // the RUN may stand behind another statement on the same direct line
+    let cmd = format!("{}{}", t.pick(&["", "", "", "LIST:", "LIST 10-20:", "TROFF:", "Q9=0:", "PRINT \"GO\":"]), cmd);
     h.note(&format!("enter {:?}   <- compared with a fresh interpreter holding the listing", cmd));
     crate::runner::note_case(&h.script);
     // the history may have left TRON on only through its own statements: none do
